@@ -9,5 +9,8 @@ CONSTANTS
   FixAbove = TRUE
   FixLookup = TRUE
   FixOrphan = TRUE
+  PrunedRewind = FALSE
+  FixDisplaced = TRUE
+  KeepDescendants = TRUE
   GenDepth = 8
 INVARIANTS Emit
